@@ -70,12 +70,13 @@ class Monitor(object):
 
 def wellformed(p):
     desc, n = p['desc'], p['n']
-    pre = ['-2**40 <= v%d <= 2**40' % i for i in range(n)]
+    nsym = min(n, p.get('nsym', n))
+    pre = ['-2**40 <= v%d <= 2**40' % i for i in range(nsym)]
     if C.has_tsplit(desc):
-        pre += ['v%d <= v%d' % (i, i + 1) for i in range(n - 1)] + (['0 <= v0'] if n else [])
+        pre += ['v%d <= v%d' % (i, i + 1) for i in range(nsym - 1)] + (['0 <= v0'] if n else [])
 
     def body(a):
-        items = list(a)
+        items = list(a) + list(range(nsym, n))
         m = Monitor()
         real, _ = C.build(desc, tap=m.tap)
         obs_ = D.src(items).pipe(rs.state.with_memory_store(list(real)))
@@ -90,7 +91,7 @@ def wellformed(p):
             if not out or out[-1] != D.END:
                 return fail(pipeline=C.show(desc), subscription=sub, items=items, flags='stream did not complete', out=out)
         return True
-    return mk('wellformed', ints('v', n), pre, body)
+    return mk('wellformed', ints('v', nsym), pre, body)
 
 
 class _Boom(Exception):
@@ -195,6 +196,9 @@ def obligations(tier, seed):
             for n in ((0, 1, 3, 6) if q else (0, 1, 2, 3, 5, 7, 9)):
                 obs.append(Ob(PROP, 'wellformed', dict(desc=[['roll', w, s, [['to_list_sum']]]], n=n), budget=b, group='roll_grid',
                               bound=dict(w=w, s=s, items=n)))
+    for (w, s, n) in ((257, 129, 259), (9, 1, 10), (300, 300, 301), (257, 64, 260)):
+        obs.append(Ob(PROP, 'wellformed', dict(desc=[['roll', w, s, [['count_r']]]], n=n, nsym=2), budget=b * 3, group='roll_big', bound=dict(w=w, s=s, items=n)))
+    obs.append(Ob(PROP, 'wellformed', dict(desc=[['roll', 9, 1, [['group', 'mod3', [['count_r']]]]]], n=10, nsym=2), budget=b * 3, group='roll_big', bound=dict(w=9, s=1, items=10, inner='group_by')))
     for d in programs(tier, seed):
         br = C.branching(d)
         for n in ((0, 3) if q else (0, 2, 4)):
